@@ -1244,3 +1244,54 @@ package gogen
 //@ ensures p.stk.data[len(p.stk.data)-1].Val.(*ast.SliceExpr).High == old(p.stk.data[len(p.stk.data) - ite(slice3, 4, 3) + 2].Val)
 //@ ensures p.stk.data[len(p.stk.data)-1].Val.(*ast.SliceExpr).Slice3 == slice3 && p.stk.data[len(p.stk.data)-1].Val.(*ast.SliceExpr).Max == ite(slice3, old(p.stk.data[len(p.stk.data)-1].Val), nil)
 //@ ensures[C03] SliceResultOK(old(p.stk.data[len(p.stk.data) - ite(slice3, 4, 3)].Type), slice3, p.stk.data[len(p.stk.data)-1].Type)
+
+// ---------------------------------------------------------------------------
+// C15 — output is a function of the operation sequence: every place where Go leaves an order or a value
+// unspecified (map iteration, pointer values, time) is either followed by an order-fixing step that is proved
+// here, or listed with the reason why it cannot reach the written files
+
+// the dependency list of the package marker reaches strings.Join sorted, whatever order the map walk produced it in
+//@ func checkXGoPkg
+//@ prop C15
+//@ nosafety
+//@ requires pkg != nil
+//@ assertcall Join: forall(i, 0, len(arg_elems) - 1, arg_elems[i] <= arg_elems[i+1])
+
+
+// the import block is ordered by sort.Slice under this comparison: it is the strict order of the quoted paths, and
+// the paths are pairwise different (they are the keys of one map), so the sorted block does not depend on the order
+// in which the map walk collected the specs
+//@ func (*File).getDecls$1
+//@ prop C15
+//@ readonly
+//@ requires 0 <= i && i < len(*specs) && 0 <= j && j < len(*specs)
+//@ requires typeis((*specs)[i], *ast.ImportSpec) && typeis((*specs)[j], *ast.ImportSpec) && (*specs)[i].(*ast.ImportSpec).Path != nil && (*specs)[j].(*ast.ImportSpec).Path != nil
+//@ ensures result == ((*specs)[i].(*ast.ImportSpec).Path.Value < (*specs)[j].(*ast.ImportSpec).Path.Value)
+
+// every path through getDecls sorts the collected import specs (sort.Slice with the comparison above) before the
+// import declaration is assembled
+//@ func (*File).getDecls
+//@ prop C15
+//@ nosafety
+//@ ghostset Slice sorted
+//@ ensures ghost(sorted)
+
+// the sources of run-to-run variation found by the scan of the whole module (every map range, sync.Map.Range,
+// pointer-to-integer conversion, time/random/environment read, go statement, multi-way select, %p) and why each
+// cannot reach the written files
+//@ site gogen.checkXGoPkg det.maprange 1 proved: the collected paths are sorted before strings.Join (callassert.Join); with the paths fixed by the key set, the joined text is unique
+//@ site gogen.(*File).getDecls det.maprange 1 proved: every path sorts the collected specs (post ghost(sorted)) with a comparison proved to be the strict order of the quoted paths (getDecls$1); the paths are the keys of one map, hence pairwise different, so the sorted list is unique; sort.Slice itself is trusted
+//@ site gogen.(*File).CheckXGoDeps det.maprange 1 reviewed: the body only ors a constant that depends on the key into flags; bitwise or is commutative, associative and idempotent, and nothing else is written
+//@ site gogen.InitXGoPackageEx det.maprange 2 reviewed: each iteration registers one overload family under its own name in the imported package's scope or method set; go/types scopes are name-keyed and a family's members are ordered by their numeric suffix (C06 overloadFuncs/overloadNameds), not by arrival; imported packages are never written
+//@ site gogen.(*Package).ForEachFile det.maprange 1 reviewed: public iteration helper with documented unspecified order; the module itself never calls it (the scan reports any caller as det.unorderedcall)
+//@ site gogen.(*funcBodyCtx).checkLabels det.maprange 1 reviewed: only the order of 'label defined and not used' error callbacks depends on the walk; no file content does
+//@ site cache.(*Impl).Save det.syncmaprange 1 reviewed: line order of the importer's cache file, not of a generated package file; loading is insensitive to line order (C20)
+//@ site typeutil.(*Map).Iterate det.maprange 1 reviewed: bucket order is exposed only to callers of Iterate/Keys/String; gogen uses the map only through Set and At (any other use is reported as det.unorderedcall)
+//@ site typeutil.(hasher).hashTypeName det.ptrint 1 reviewed: the pointer value only selects a hash bucket; lookups compare with types.Identical (C19) and bucket order is never iterated by gogen
+//@ site typeutil.init det.env 2 reviewed: the maphash seed only perturbs string hashes used for bucket selection (as above)
+
+// ---------------------------------------------------------------------------
+// C18 — independent builds share no written location. Package-level variables: the scan of the whole module finds
+// every store, map update, copy/clear/delete whose target is rooted at a package-level variable outside the package
+// initialisers; the only ones are the debug switches
+//@ site gogen.SetDebug own.globalstore 5 reviewed: process-wide debug switches (debugInstr, debugImport, debugMatch, debugComments, debugWriteFile) set by the client before building; they only enable logging and are documented as global configuration
